@@ -131,7 +131,9 @@ class Node(ModelElement):
     @image_type.setter
     def image_type(self, value: str):
         if self.__dict__.get('topo', None) is not None:
-            self.set_property('image_type', value)
+            imref = self.get_property('image_ref')
+            # image ref and type have fate-sharing - neither can be null to be written into a graph
+            self.set_properties(image_ref=imref, image_type=value)
 
     @property
     def image_ref(self):
